@@ -127,6 +127,10 @@ func c17Skeletons() {
 	})
 }
 
+type hdrPair [2]string
+
+func (p hdrPair) toMap() map[string][]string { return map[string][]string{p[0]: {p[1]}} }
+
 var schemeRe = regexp.MustCompile(`^[A-Za-z][A-Za-z0-9+.\-]*$`)
 
 // browserScheme returns the scheme a browser would see in an attribute value:
@@ -358,7 +362,16 @@ func c17Callback(r *core.Run, idx int, rng *rand.Rand) {
 		}
 		r.Count("callback_pages_with_storage_fault", 1)
 	}
-	call := e.Do(env.Req{Method: "GET", Path: env.PathLogin, Query: "id=" + url.QueryEscape(sc.S.ID), Host: sc.Host, Ctx: reqCtx})
+	// request headers a static-file server would act on must not matter for a generated page
+	var hdrs map[string][]string
+	if idx%6 == 1 {
+		hdrs = []hdrPair{{"Range", "bytes=760-"}, {"Range", "bytes=-200"}, {"Range", "bytes=0-99,700-799"}, {"If-Range", "\"x\""}, {"If-None-Match", "*"}, {"If-Modified-Since", "Wed, 21 Oct 2099 07:28:00 GMT"}, {"If-Match", "\"nope\""}, {"Accept-Encoding", "gzip, br"}, {"Accept", "application/json"}, {"Expect", "100-continue"}}[rng.Intn(10)].toMap()
+		if rng.Intn(3) == 0 {
+			hdrs["Range"] = []string{"bytes=100-"}
+		}
+		fault += "request_headers"
+	}
+	call := e.Do(env.Req{Method: "GET", Path: env.PathLogin, Query: "id=" + url.QueryEscape(sc.S.ID), Host: sc.Host, Ctx: reqCtx, Headers: hdrs})
 	if reqCtx != nil {
 		time.Sleep(5 * time.Millisecond) // anything that still writes to the reply after the handler returned
 		call.D = reply.Decode(call.Rec)
@@ -371,6 +384,10 @@ func c17Callback(r *core.Run, idx int, rng *rand.Rand) {
 	r.Eval(fmt.Sprintf("%s|%s|%d", class, core.Hex(sc.S.ACS), len(sc.S.RelayState)))
 	if call.Panic != "" {
 		r.Violate(core.Violation{Clause: "panic", Class: class, Reason: call.Panic, Workload: wl, Index: idx, Case: desc, Observed: call.Describe()})
+		return
+	}
+	if hdrs != nil && call.D.Status != 200 && call.D.Status < 400 {
+		r.Violate(core.Violation{Clause: "page_incomplete", Class: class, Reason: fmt.Sprintf("the page was answered with status %d (request headers %v): a browser gets a part of the page, or none", call.D.Status, hdrs), Workload: wl, Index: idx, Case: desc, Observed: call.Describe()})
 		return
 	}
 	if call.D.Kind != "form" {
